@@ -107,6 +107,14 @@ class Env:
             for u, v in t[2]:
                 G.add_edge(u, v)
             return G
+        if isinstance(t, list) and t and t[0] == 'dag':
+            from cnfgen.graphs import DirectedGraph
+            G = DirectedGraph(t[1])
+            for u, v in t[2]:
+                G.add_edge(u, v)
+            return G
+        if isinstance(t, list) and t and t[0] == 'saved':        # file written by `save`, read by parse_saved_graph
+            return self.ev(parse_saved_graph(t[1], self.path(t[2]), t[3]))
         if isinstance(t, list) and t and t[0] == 'lit':
             return t[1]
         if isinstance(t, list) and t and t[0] == 'dimacs':
@@ -127,6 +135,60 @@ class Env:
                 F.add_clause([])
             return F
         return t
+
+
+class SavedFileError(Exception):
+    pass
+
+
+def parse_saved_graph(kind, path, fmt):
+    """independent reader of the files written by `save` (kthlist, dimacs, matrix), written from the
+    format descriptions; returns an explicit graph term ['simple'|'dag', n, edges] / ['bip', L, R, edges]"""
+    with open(path, encoding='utf-8') as f:
+        lines = [l.strip() for l in f.read().split('\n')]
+    if fmt == 'matrix':
+        rows = [l.split() for l in lines if l]
+        L, R = int(rows[0][0]), int(rows[0][1])
+        body = rows[1:]
+        if len(body) != L or any(len(r) != R or set(r) - {'0', '1'} for r in body):
+            raise SavedFileError('saved matrix file {} is not an {}x{} 0/1 matrix'.format(path, L, R))
+        return ['bip', L, R, [(u + 1, v + 1) for u in range(L) for v in range(R) if body[u][v] == '1']]
+    if fmt == 'dimacs':
+        n, m, edges = None, None, []
+        for l in lines:
+            if not l or l.startswith('c'):
+                continue
+            t = l.split()
+            if t[0] == 'p':
+                n, m = int(t[2]), int(t[3])
+            elif t[0] == 'e':
+                edges.append((int(t[1]), int(t[2])))
+            else:
+                raise SavedFileError('saved dimacs file {}: line {!r}'.format(path, l))
+        if n is None or m != len(edges):
+            raise SavedFileError('saved dimacs file {}: header does not match the body'.format(path))
+        if kind == 'simple':
+            edges = sorted(set((min(e), max(e)) for e in edges))
+        return [kind if kind != 'bipartite' else 'bip', n, sorted(edges)]
+    if fmt == 'kthlist':
+        data = [l for l in lines if l and not l.startswith('c')]
+        n = int(data[0])
+        rows = []
+        for l in data[1:]:
+            head, _, tail = l.partition(':')
+            nb = [int(x) for x in tail.split()]
+            if not nb or nb[-1] != 0:
+                raise SavedFileError('saved kthlist file {}: line {!r} not closed by 0'.format(path, l))
+            rows.append((int(head), nb[:-1]))
+        if kind == 'bipartite':
+            L = len(rows)
+            return ['bip', L, n - L, sorted((u, w - L) for u, nb in rows for w in nb)]
+        if len(rows) != n:
+            raise SavedFileError('saved kthlist file {}: {} rows for {} vertices'.format(path, len(rows), n))
+        if kind == 'dag':
+            return ['dag', n, sorted((w, v) for v, nb in rows for w in nb)]
+        return ['simple', n, sorted(set((min(v, w), max(v, w)) for v, nb in rows for w in nb))]
+    raise ValueError(fmt)
 
 
 def canon(F):
@@ -286,6 +348,12 @@ def eval_case(case, fix=None):
             else:
                 try:
                     Fexp = env.ev(exp)
+                except FileNotFoundError as e:
+                    if cli_exc is not None:
+                        return ('trivial-both-reject',)      # graph argument refused: nothing saved, nothing to compare
+                    return 'saved-file', 'the command line built a formula but did not write the file named by `save`: {}'.format(e)
+                except SavedFileError as e:
+                    return 'saved-file', str(e)
                 except ValueError as e:
                     if cli_exc is not None:
                         return ('trivial-both-reject',)
@@ -541,6 +609,42 @@ def build_cases(tier, seed):
             toks += ['-T', t] + a
             term = tterm(term, t, a)
         add('cnfgen', '-T chain', 'length {}'.format(len(chain)), toks, term, seed=33)
+    # --- graph modifiers + save: the saved file must hold the graph the formula is built on -----------------
+    MODS = {'simple': [('plantclique', ['3']), ('addedges', ['3']), ('splitedges', ['2'])],
+            'bipartite': [('plantbiclique', ['2', '2']), ('addedges', ['3'])], 'dag': []}
+    BASES = {'simple': [['grid', '2', '3'], ['gnp', '6', '.4'], ['empty', '5']] + ([['gnm', '6', '5'], ['complete', '2', '3']] if thorough else []),
+             'bipartite': [['glrp', '4', '4', '.3'], ['empty', '3', '4']] + ([['glrd', '4', '5', '2'], ['shift', '4', '4', '0', '1']] if thorough else []),
+             'dag': [['pyramid', '2'], ['tree', '2']] + ([['path', '3']] if thorough else [])}
+    SAVEFMT = {'simple': ['kthlist', 'dimacs'], 'bipartite': ['kthlist', 'matrix'], 'dag': ['kthlist', 'dimacs']}
+    USERS = {'simple': [(['kcolor', '2'], 'GraphColoringFormula', [2]), (['kclique', '3'], 'CliqueFormula', [3]),
+                        (['tseitin', 'first'], 'TseitinFormula', [['lit', 'FIRST']]), (['matching'], 'PerfectMatchingPrinciple', []),
+                        (['op'], 'GraphOrderingPrinciple', [])],
+             'bipartite': [(['php'], 'GraphPigeonholePrinciple', []), (['subsetcard'], 'SubsetCardinalityFormula', [False])],
+             'dag': [(['peb'], 'PebblingFormula', []), (['stone', '2'], 'StoneFormula', [2])]}
+    n_mod = 0
+    for kind in ('simple', 'bipartite', 'dag'):
+        mods = MODS[kind]
+        combos = [[]] + [[m] for m in mods] + [[a, b] for a in mods for b in mods if a[0] != b[0]]
+        if len(mods) > 2:
+            combos.append(list(mods))
+        for bi, base in enumerate(BASES[kind]):
+            for ci, combo in enumerate(combos):
+                mtoks = [x for name, vals in combo for x in [name] + vals]
+                vname = 'saved-graph:' + ('+'.join(name for name, _ in combo) or 'plain')
+                for fi, fmt in enumerate(SAVEFMT[kind]):
+                    path = '{{O}}/mod_{}{}_{}.{}'.format(kind[0], n_mod, fi, fmt)
+                    n_mod += 1
+                    layouts = [mtoks + ['save', fmt, path], mtoks + ['save', path]]
+                    if combo:      # `save` written before / between the modifiers names the same graph
+                        k = len(combo[0][1]) + 1
+                        layouts.append(['save', path] + mtoks)
+                        if len(combo) > 1:
+                            layouts.append(mtoks[:k] + ['save', fmt, path] + mtoks[k:])
+                    users = USERS[kind] if thorough else [USERS[kind][(bi + ci + fi + j) % len(USERS[kind])] for j in range(2)]
+                    for li, lay in enumerate(layouts):
+                        for ui, (pre, fn, extra) in enumerate(users):
+                            for tool in (('cnfgen', 'pbgen') if (thorough or (li + ui + ci) % 3 == 0) else ('cnfgen',)):
+                                add(tool, pre[0], vname, pre + base + lay, ['call', fn, [['saved', kind, path, fmt]] + extra], seed=17)
     # --- kthlist2pebbling ------------------------------------------------------------------------------
     for f in ('d.kthlist',):
         txt = x_cli.GOOD_FILES[f]
